@@ -30,7 +30,7 @@ Definition aborted (off : Z) (fs : list frame) (k : nat) (ab : bool) : list dlv 
    budget  : fragments the handler may still be given (fragment_limit minus those given so far)
    a consumed fragment's answer is never Abort; after Break nothing more is consumed or handed over;
    the aborted fragment is a data frame, within the budget, below the bound, answered Abort. *)
-Fixpoint adm (P : Z -> bool) (fs : list frame) (sc : list action) (off budget : Z) (k : nat) (ab : bool) : bool :=
+Fixpoint adm (P : Z -> bool) (fs : list frame) (sc : list action) (off budget : Z) (k : nat) (ab : bool) {struct k} : bool :=
   match k with
   | O => if ab then
            match fs with
@@ -121,7 +121,7 @@ Definition judge_poll (bnd : option Z) (limit : Z) (sc : list action) (pos off :
 
 (* ---- controlled_peek ---- *)
 (* admissible scans: like adm without a fragment budget *)
-Fixpoint padm (P : Z -> bool) (fs : list frame) (sc : list action) (off : Z) (k : nat) (ab : bool) : bool :=
+Fixpoint padm (P : Z -> bool) (fs : list frame) (sc : list action) (off : Z) (k : nat) (ab : bool) {struct k} : bool :=
   match k with
   | O => if ab then
            match fs with
@@ -142,7 +142,7 @@ Fixpoint padm (P : Z -> bool) (fs : list frame) (sc : list action) (off : Z) (k 
 
 (* the position a peek reports: the end of the last scanned frame that completes a message
    (END flag set) or is padding; `acc` (the initial position) when there is none *)
-Fixpoint last_complete (base : Z) (fs : list frame) (off : Z) (k : nat) (acc : Z) : Z :=
+Fixpoint last_complete (base : Z) (fs : list frame) (off : Z) (k : nat) (acc : Z) {struct k} : Z :=
   match k, fs with
   | S k', f :: r =>
       let e := off + span f in
